@@ -576,15 +576,16 @@ func (cr *c32Runner) judge(s *c32Succ, inMemory bool) {
 		}
 		signed, derr = cppki.DecodeSignedTRC(der)
 	}
+	payloadInvalid := s.hdr == c32HdrInvalidPayload || strings.HasPrefix(reason, "payload-invalid")
 	if derr != nil {
-		if s.hdr != c32HdrInvalidPayload {
+		if !payloadInvalid {
 			r.HarnessError("generated signed TRC does not decode: %v (%v)", derr, s)
 			return
 		}
 		// the receiver cannot even parse it; additionally make sure Verify on the in-memory form refuses it
 		t.Raw = raw
 		signed = cppki.SignedTRC{Raw: der, TRC: t, SignerInfos: infos}
-	} else if s.hdr == c32HdrInvalidPayload {
+	} else if payloadInvalid && !inMemory {
 		r.Violation("accepted:invalid-payload-decoded", map[string]any{"case": s.String()})
 		return
 	}
